@@ -30,3 +30,11 @@ register("C19", "exploration",
          "complement_dsDNA on generated linear/circular strands (graph, .ig, gen_params -dsdna routes) against an independent Watson-Crick model: 2n residues, first strand unchanged, mirrored complement with swapped terminal roles, copied edge labels, no bridging edges, circular closure, involution, unknown names rejected.",
          "n <= 120; KeyError/IOError both accepted as rejection",
          "Hypothesis-generated inputs + reference-model oracle + involution", "DESIGN.md 4/C19")
+register("C16", "exploration",
+         "Generated operation histories (add/remove/concatenate/re-add/queries, incl. emptying a tree and opening a second tree above 5000 positions) over the real NonBondEngine, compared after every step with a dict model: positions, brute-force minimum-image 12-6 force (analytic and numerical gradient), internal index views, minimum-image distance laws.",
+         "model written from the statement; float tolerances 1e-9 relative (1e-4 for the numerical gradient); <=40 steps, <=24 residues (+5001 dummies in 5% of the histories)",
+         "Hypothesis-generated operation sequences + model-based oracle", "DESIGN.md 4/C16")
+register("C17", "fault_enumeration",
+         "Failure schedules injected into the placement step of the real random walk: all bit strings up to length 9 (quick) / 13 (thorough) x 14 residue-graph shapes with 0-3 supplied residues x rewind depths 1-4 at the single-molecule layer (bounded exhaustive), plus generated schedules through the real _compose_system/_handle_random_walk for 1-3 molecules. Invariants over the engine history are checked at every step.",
+         "successful placements are the repository's own in an empty 30 nm box; enumeration is complete only for the stated bound and shapes",
+         "bounded enumeration of failure schedules + Hypothesis-generated schedules, history-invariant oracle", "DESIGN.md 4/C17")
